@@ -18,6 +18,12 @@ use crate::common::{PathRec, PathResult};
 pub struct Cfg {
     pub max_size: usize,
     pub method: String,
+    /// after the path: that many clients of a second pool (same manager type) are taken at the same moment,
+    /// `stress_rounds` times; the registry must end up empty each time
+    #[serde(default)]
+    pub stress: usize,
+    #[serde(default)]
+    pub stress_rounds: usize,
 }
 
 #[derive(Clone, Debug, Deserialize)]
@@ -275,6 +281,89 @@ impl World {
     }
 }
 
+/// Another thread sits inside the registry (Debug-printing a Mutex holds its lock while the data is
+/// written, and the writer parks there); the given clients are taken by one thread each, which has to wait
+/// for the registry.  The step goes on once the kernel reports every taker asleep (or finished: code that
+/// does not wait) - no timing involved - then the registry is released and the takers race.
+fn take_while_registry_busy(w: &mut World, cs: &[u32]) {
+    let clients: Vec<(u32, Client)> = cs.iter().filter_map(|c| w.held.remove(c).map(|o| (*c, o))).collect();
+    if clients.is_empty() {
+        return;
+    }
+    let gate = std::sync::Arc::new((Mutex::new((false, false)), std::sync::Condvar::new()));
+    struct ParkWriter(std::sync::Arc<(Mutex<(bool, bool)>, std::sync::Condvar)>);
+    impl std::fmt::Write for ParkWriter {
+        fn write_str(&mut self, s: &str) -> std::fmt::Result {
+            if s.contains("data") {
+                let (m, cv) = &*self.0;
+                let mut g = m.lock().unwrap();
+                g.0 = true;
+                cv.notify_all();
+                while !g.1 {
+                    g = cv.wait(g).unwrap();
+                }
+            }
+            Ok(())
+        }
+    }
+    let pool2 = w.pool.clone();
+    let g2 = gate.clone();
+    let printer = std::thread::spawn(move || {
+        use std::fmt::Write;
+        let mut pw = ParkWriter(g2);
+        let _ = write!(pw, "{:?}", pool2.manager().statement_caches);
+    });
+    {
+        let (m, cv) = &*gate;
+        let mut g = m.lock().unwrap();
+        let t0 = Instant::now();
+        while !g.0 && t0.elapsed() < Duration::from_secs(2) {
+            g = cv.wait_timeout(g, Duration::from_millis(50)).unwrap().0;
+        }
+    }
+    let mut takers = vec![];
+    for (id, c) in clients {
+        let (tid_tx, tid_rx) = std::sync::mpsc::channel::<String>();
+        let h = std::thread::spawn(move || {
+            let me = std::fs::read_link("/proc/thread-self").map(|p| p.to_string_lossy().to_string()).unwrap_or_default();
+            let _ = tid_tx.send(me);
+            Client::take(c)
+        });
+        let me = tid_rx.recv_timeout(Duration::from_secs(2)).unwrap_or_default();
+        takers.push((id, h, me));
+    }
+    for (_, h, me) in &takers {
+        let t0 = Instant::now();
+        let mut asleep = 0;
+        while !h.is_finished() && asleep < 3 && t0.elapsed() < Duration::from_secs(2) {
+            let st = std::fs::read_to_string(format!("/proc/{}/stat", me)).unwrap_or_default();
+            // "pid (comm) S ..." : the state letter follows the closing parenthesis
+            let state = st.rsplit(')').next().and_then(|r| r.trim_start().chars().next()).unwrap_or('?');
+            if state == 'S' {
+                asleep += 1;
+            } else {
+                asleep = 0;
+            }
+            std::thread::sleep(Duration::from_micros(300));
+        }
+    }
+    {
+        let (m, cv) = &*gate;
+        m.lock().unwrap().1 = true;
+        cv.notify_all();
+    }
+    let _ = printer.join();
+    for (id, h, _) in takers {
+        match h.join() {
+            Ok(cw) => {
+                w.taken.insert(id, cw);
+            }
+            // (a take that panics is a fact the monitor hears about)
+            Err(_) => w.bump("bad_prepare"),
+        }
+    }
+}
+
 pub fn run_path(cfg: &Cfg, path: &PathRec<Post>, record: bool) -> (PathResult, Vec<String>) {
     let mut res = PathResult { id: path.id, conform: true, ..Default::default() };
     let mut lines = vec![];
@@ -322,6 +411,8 @@ pub fn run_path(cfg: &Cfg, path: &PathRec<Post>, record: bool) -> (PathResult, V
             json!({"run": path.id, "i": n, "k": k, "act": act, "size": st.size, "avail": st.available, "max": cfg.max_size,
                    "last_get": w.last_get, "closed_handout": w.facts.get("closed_handout").unwrap_or(&0),
                    "bad_q": bad_q, "bad_prepare": w.facts.get("bad_prepare").unwrap_or(&0), "bad_size": bad_size,
+                   // entries of the registry, read off its Debug output (one "(Weak)" per registered cache)
+                   "reg_n": format!("{:?}", w.pool.manager().statement_caches).matches("(Weak)").count(),
                    "nqueries": s.conns.iter().map(|c| c.queries.len()).sum::<usize>(), "fast": expect_sql.is_none(), "probe_got": probe})
             .to_string()
         };
@@ -386,6 +477,105 @@ pub fn run_path(cfg: &Cfg, path: &PathRec<Post>, record: bool) -> (PathResult, V
                         Some(Err(_)) => w.bump("bad_prepare"),
                         None => {}
                     }
+                }
+                "TxPrepare" => {
+                    // the same through deadpool_postgres::Transaction (depth 2: a nested transaction / savepoint):
+                    // the wrapper shares the client's statement cache
+                    let key = st.x.get(1).and_then(|v| v.as_str()).unwrap_or("a").to_string();
+                    let depth = st.x.get(2).and_then(|v| v.as_u64()).unwrap_or(1);
+                    let (q, types) = key_parts(&key);
+                    let hit_expected = w.keys.get(&arg_c).map(|k| k.contains(&key)).unwrap_or(false);
+                    let before = { let s = w.srv.lock().unwrap(); (s.conns[(arg_c - 1) as usize].parses.len(), s.conns.iter().map(|c| c.parses.len()).sum::<usize>(), s.conns[(arg_c - 1) as usize].txq.len()) };
+                    let mut outcome: Option<bool> = None;
+                    if let Some(c) = w.held.get_mut(&arg_c) {
+                        let cw: &mut ClientWrapper = &mut *c;
+                        match cw.transaction().await {
+                            Ok(mut tx) => {
+                                let r = if depth >= 2 {
+                                    match tx.transaction().await {
+                                        Ok(inner) => {
+                                            let r = if types.is_empty() { inner.prepare_cached(q).await } else { inner.prepare_typed_cached(q, &types).await };
+                                            let c = inner.commit().await;
+                                            r.map(|s| (s, c.is_ok()))
+                                        }
+                                        Err(e) => Err(e),
+                                    }
+                                } else {
+                                    let r = if types.is_empty() { tx.prepare_cached(q).await } else { tx.prepare_typed_cached(q, &types).await };
+                                    r.map(|s| (s, true))
+                                };
+                                let committed = tx.commit().await.is_ok();
+                                outcome = Some(match r {
+                                    Ok((stmt, inner_ok)) => {
+                                        inner_ok && committed && stmt.params().iter().map(|t| t.oid()).collect::<Vec<_>>() == types.iter().map(|t| t.oid()).collect::<Vec<_>>()
+                                    }
+                                    Err(_) => false,
+                                });
+                            }
+                            Err(_) => outcome = Some(false),
+                        }
+                    }
+                    if let Some(ok) = outcome {
+                        let s = w.srv.lock().unwrap();
+                        let conn = &s.conns[(arg_c - 1) as usize];
+                        let all: usize = s.conns.iter().map(|c| c.parses.len()).sum();
+                        let parses_ok = if hit_expected { all == before.1 } else { conn.parses.len() == before.0 + 1 && conn.parses.last() == Some(&key) && all == before.1 + 1 };
+                        // BEGIN .. COMMIT (and SAVEPOINT .. RELEASE inside) reached the server on this very connection
+                        let tx_ok = conn.txq.len() == before.2 + if depth >= 2 { 4 } else { 2 };
+                        drop(s);
+                        if !(ok && parses_ok && tx_ok) {
+                            w.bump("bad_prepare");
+                        }
+                        w.keys.entry(arg_c).or_default().insert(key);
+                    }
+                }
+                "PrepareJoin" => {
+                    let key = st.x.get(1).and_then(|v| v.as_str()).unwrap_or("a").to_string();
+                    let (q, types) = key_parts(&key);
+                    let c: Option<&ClientWrapper> = w.held.get(&arg_c).map(|c| &**c).or_else(|| w.taken.get(&arg_c));
+                    if let Some(c) = c {
+                        let (r1, r2) = if types.is_empty() {
+                            tokio::join!(c.prepare_cached(q), c.prepare_cached(q))
+                        } else {
+                            tokio::join!(c.prepare_typed_cached(q, &types), c.prepare_typed_cached(q, &types))
+                        };
+                        if r1.is_err() || r2.is_err() {
+                            w.bump("bad_prepare");
+                        }
+                        w.keys.entry(arg_c).or_default().insert(key);
+                    }
+                }
+                "Clear" => {
+                    w.pool.manager().statement_caches.clear();
+                    let owned: Vec<u32> = w.keys.keys().filter(|c| !w.taken.contains_key(c)).copied().collect();
+                    for c in owned {
+                        w.keys.insert(c, BTreeSet::new());
+                    }
+                }
+                "Remove" => {
+                    let key = st.x.first().and_then(|v| v.as_str()).unwrap_or("a").to_string();
+                    let (q, types) = key_parts(&key);
+                    w.pool.manager().statement_caches.remove(q, &types);
+                    let owned: Vec<u32> = w.keys.keys().filter(|c| !w.taken.contains_key(c)).copied().collect();
+                    for c in owned {
+                        w.keys.get_mut(&c).unwrap().remove(&key);
+                    }
+                }
+                "Return" => {
+                    drop(w.held.remove(&arg_c));
+                }
+                "Take" => {
+                    if let Some(c) = w.held.remove(&arg_c) {
+                        w.taken.insert(arg_c, Client::take(c));
+                    }
+                }
+                "TakeBusy" => {
+                    take_while_registry_busy(&mut w, &[arg_c]);
+                }
+                "TakeBoth" => {
+                    // two clients are taken by two threads at the same moment (both wait for the registry, then race)
+                    let c2 = st.x.get(1).and_then(|v| v.as_u64()).unwrap_or(0) as u32;
+                    take_while_registry_busy(&mut w, &[arg_c, c2]);
                 }
                 "TxPrepare" => {
                     // the same through deadpool_postgres::Transaction (depth 2: a nested transaction / savepoint):
@@ -611,14 +801,86 @@ pub fn run_path(cfg: &Cfg, path: &PathRec<Post>, record: bool) -> (PathResult, V
             got += 1;
             let ids: Vec<u32> = w.held.keys().copied().collect();
             for id in ids {
-                keep.push(w.held.remove(&id).unwrap());
+                keep.push((id, w.held.remove(&id).unwrap()));
             }
         }
         n += 1;
         if record {
             lines.push(ev(&w, n, "probe", "Probe", got as i64));
         }
+        // second half of the probe: everything the pool handed out is taken at the same moment by one thread
+        // per client, all of them waiting for the registry first; afterwards the registry must be empty
+        if keep.len() >= 2 {
+            for (id, c) in keep.drain(..) {
+                w.held.insert(id, c);
+            }
+            let ids: Vec<u32> = w.held.keys().copied().collect();
+            take_while_registry_busy(&mut w, &ids);
+            n += 1;
+            if record {
+                lines.push(ev(&w, n, "probe2", "TakeAll", got as i64));
+            }
+        }
         drop(keep);
+        // TakeAll at a larger constant than the model enumerates: the effect is the same (nothing stays registered)
+        for _round in 0..(if cfg.stress >= 2 { cfg.stress_rounds.max(1) } else { 0 }) {
+            let mut pgc = tokio_postgres::Config::new();
+            pgc.user("u").dbname("db");
+            let srv2: Arc<Mutex<Srv>> = Arc::new(Mutex::new(Srv::default()));
+            let mgr = Manager::from_connect(pgc, DuplexConnect { srv: srv2.clone() }, ManagerConfig { recycling_method: method_of(&cfg.method) });
+            let pool = Pool::builder(mgr).max_size(cfg.stress).build().unwrap();
+            let mut w2 = World { pool, srv: srv2, held: BTreeMap::new(), taken: BTreeMap::new(), ids: BTreeMap::new(), last_get: "-".into(), keys: BTreeMap::new(), facts: BTreeMap::new() };
+            let mut all = vec![];
+            for _ in 0..cfg.stress {
+                w2.get(vec![]).await;
+                let ids: Vec<u32> = w2.held.keys().copied().collect();
+                for id in ids {
+                    all.push((id, w2.held.remove(&id).unwrap()));
+                }
+            }
+            // three of four clients are taken, the rest stays checked out
+            let mut kept = vec![];
+            for (i, (id, c)) in all.into_iter().enumerate() {
+                if i % 4 != 3 {
+                    w2.held.insert(id, c);
+                } else {
+                    kept.push(c);
+                }
+            }
+            // (no gate here: the takers leave a barrier together and run in parallel on several cores)
+            let ids: Vec<u32> = w2.held.keys().copied().collect();
+            let barrier = Arc::new(std::sync::Barrier::new(ids.len()));
+            let mut hs = vec![];
+            for id in ids {
+                let c = w2.held.remove(&id).unwrap();
+                let b = barrier.clone();
+                hs.push((id, std::thread::spawn(move || {
+                    b.wait();
+                    Client::take(c)
+                })));
+            }
+            for (id, h) in hs {
+                match h.join() {
+                    Ok(cw) => {
+                        w2.taken.insert(id, cw);
+                    }
+                    Err(_) => w2.bump("bad_prepare"),
+                }
+            }
+            let reg_n = format!("{:?}", w2.pool.manager().statement_caches).matches("(Weak)").count();
+            let panics = *w2.facts.get("bad_prepare").unwrap_or(&0);
+            n += 1;
+            if record {
+                let st = w2.pool.status();
+                lines.push(
+                    json!({"run": path.id, "i": n, "k": "stress", "act": "TakeAll", "size": st.size, "avail": st.available, "max": cfg.stress,
+                           "last_get": "-", "closed_handout": 0, "bad_q": 0, "bad_prepare": panics, "bad_size": 0, "reg_n": reg_n,
+                           "nqueries": 0, "fast": true, "probe_got": -1})
+                    .to_string(),
+                );
+            }
+            drop(kept);
+        }
     });
     rt.shutdown_background();
     (res, lines)
